@@ -476,16 +476,19 @@ func init() {
 	// a channel taken with Txn.Get inside the later transaction, between its two operations
 	txnget := HarnessRun{Entry: "VerifC12Watch", Params: map[string]int{"N1": 1, "N2": 2, "L": 1, "ROOTONLY": 0, "MODIFYWATCH": 0, "TXNGET": 1, "WL": 0},
 		Covers: []string{"C12.committed", "C12.txnget", "C12.end"}, DiffRuns: 20}
+	// the same with the channel of Txn.Prefix(k)
+	txnprefix := HarnessRun{Entry: "VerifC12Watch", Params: map[string]int{"N1": 1, "N2": 2, "L": 1, "ROOTONLY": 0, "MODIFYWATCH": 0, "TXNGET": 2, "WL": 0},
+		Covers: []string{"C12.committed", "C12.txnget", "C12.end"}, DiffRuns: 20}
 	// {"ab","ac","ad","x"}: an insert that fills the node, Txn.Get of a symbolic key, then an operation that may grow the node
 	txnget8 := HarnessRun{Entry: "VerifC12Watch", Params: map[string]int{"PRESET": 8, "N1": 0, "N2": 2, "L": 2, "ALPHA": 1, "TXNGET": 1, "WL": 0, "FIRSTINS": 1},
 		Covers: []string{"C12.committed", "C12.txnget", "C12.end"}, DiffRuns: 20}
 	reg(&CheckSpec{
 		ID: "C12", PkgDir: "part",
-		Quick:    []HarnessRun{w(1, 2, 1, 0, 0), w(1, 2, 1, 1, 0), txnget, txnget8, w(2, 1, 1, 0, 1), w(1, 1, 2, 0, 0), w(1, 1, 2, 1, 0), preset(1, 1), preset(2, 1), preset(4, 1), preset(5, 1), preset(6, 1), merge7},
+		Quick:    []HarnessRun{w(1, 2, 1, 0, 0), w(1, 2, 1, 1, 0), txnget, txnprefix, txnget8, w(2, 1, 1, 0, 1), w(1, 1, 2, 0, 0), w(1, 1, 2, 1, 0), preset(1, 1), preset(2, 1), preset(4, 1), preset(5, 1), preset(6, 1), merge7},
 		Thorough: []HarnessRun{preset(3, 1), w(1, 2, 1, 1, 1), w(2, 1, 1, 1, 0),
 			{Entry: "VerifC12Watch", Params: map[string]int{"PRESET": 8, "N1": 0, "N2": 2, "L": 2, "ALPHA": 1, "TXNGET": 1, "WL": 0}, Covers: []string{"C12.txnget", "C12.end"}, DiffRuns: 20},
 			{Entry: "VerifC12Watch", Params: map[string]int{"N1": 1, "N2": 2, "L": 1, "TXNGET": 1}, Covers: []string{"C12.txnget", "C12.end"}, DiffRuns: 20}},
-		Outside:  []string{"pre-state shapes: PRESET 1-7 are concrete 3-6 key trees (keys that are prefixes of one another, a node with 5 children, an inner node with a value and a single inner-node child); in the PRESET 7 run symbolic key bytes range over {a..e,x}, the first operation is a delete of a key of at most one byte and watched keys have at most two bytes", "TXNGET=1: one channel taken with Txn.Get(k) inside the later transaction after its first operation; it must be closed after Commit+Notify if a later operation of that transaction changed k, and at the latest when a following transaction changes k", "outside: trees deeper than the keys of length <= L allow; more than N1 pre-state keys and N2 later operations; Prefix/iterator channels taken inside a transaction"},
+		Outside:  []string{"pre-state shapes: PRESET 1-7 are concrete 3-6 key trees (keys that are prefixes of one another, a node with 5 children, an inner node with a value and a single inner-node child); in the PRESET 7 run symbolic key bytes range over {a..e,x}, the first operation is a delete of a key of at most one byte and watched keys have at most two bytes", "TXNGET=1: one channel taken with Txn.Get(k) inside the later transaction after its first operation; it must be closed after Commit+Notify if a later operation of that transaction changed k, and at the latest when a following transaction changes k", "TXNGET=2: the same for the channel returned by Txn.Prefix(k) (closed when a key with that prefix changes later in the transaction or in the next one)", "outside: trees deeper than the keys of length <= L allow; more than N1 pre-state keys and N2 later operations"},
 	})
 }
 
